@@ -495,6 +495,11 @@ PROPS = {
             "C04_call_non_function_is_invalid_argument", "C04_get_property_wrong_type", "C04_set_property_wrong_type",
             "C04_integer_overflow_wraps", "C04_integer_overflow_witness", "C04_budget_zero_is_timeout",
             "C04_budget_zero_dispatches_nothing",
+            "C04_equality_total", "C04_append_probe_terminates", "C04_step_no_abort_no_native", "C04_native_call_ok",
+            "C04_native_call_ok0", "C04_step_no_abort", "C04_step_preserves", "C04_loop_no_abort", "C04_run_no_abort_partial",
+            "C04_fresh_state_inv", "C04_cyclic_table_aborts", "C04_cyclic_heap_not_acyclic",
+            "C04_step_keeps_acyclic", "C04_set_property_ranked", "C04_append_table_ranked",
+            "C04_wellformed_code_ok", "C04_compiled_run_no_abort",
         ]},
         n_quick=200, n_thorough=2000,
         gen_timeout=3000,
@@ -545,8 +550,21 @@ PROPS = {
         assumptions=[
             "compile_total holds on C04Proofs.module_in_domain (decidable): estimated output below 2^32 bytes (the former "
             "conditions on zero handles went with 3f22e7c: N-C04-1..3 repaired, C04_zero_*_repaired)",
-            "PARTIAL run_no_abort: one step, 37 of 47 opcodes, under step_pre; instructions that look keys up in tables, "
-            "natives and the upvalue instructions are not covered (C04VmProofs.v header lists every abort site of Vm.v)",
+            "run_no_abort: one step of every opcode and every native (C04_step_no_abort) and the dispatch loop / Vm::run "
+            "(C04_loop_no_abort, C04_run_no_abort_partial) do not abort under the structural invariant vm_inv (proved "
+            "to be preserved: C04_step_preserves) and the per-instruction conditions [side]: the heap is ranked "
+            "(acyclic and nested less than eq_fuel - 1 = 23 tables deep; a cyclic table aborts: C04_cyclic_table_aborts, "
+            "A-37), no native function value names a native that calls back, ForEach's counter is >= 0 in Debug "
+            "builds, RegisterUpvalue's captured variable exists. [side] is a hypothesis on the instructions the "
+            "loop dispatches (heap_acyclic is not preserved by SetProperty / AppendTable of a table into a table). "
+            "(C04_step_keeps_acyclic: every other instruction keeps it; C04_set_property_ranked / "
+            "C04_append_table_ranked: the condition for those two; the stdlib natives __min / __max / __sort are not "
+            "shown to keep it). Nested runs enter through the contract reenter_ok (a hypothesis, not discharged by induction over "
+            "the nesting depth); code_ok (instruction starts, operands inside, jump targets and labels at starts) "
+            "follows from C10 wellformed (C04_wellformed_code_ok, C04_compiled_run_no_abort). The model's == has a "
+            "recursion fuel of 24: tables nested 23 or more levels deep count as an abort in the model although the "
+            "crate only overflows its native stack at a much larger depth (the model is pessimistic there). "
+            "C04VmProofs.v's header lists every abort site of Vm.v with its final status",
             "native stack exhaustion and aborts are runtime behaviour: observed per child process, not derivable from the "
             "models (DESIGN section 9); card nesting deeper than the loaders admit is outside the property (class 14)",
             "serde_yaml needs time quadratic in the nesting depth before it reports its recursion limit (100 000 open "
